@@ -260,6 +260,16 @@ def shape(ctx, prog):
         ctx.ok(rule, ar.id, "every eviction is followed by pushing the new active segment")
     else:
         ctx.violation(rule, ar.id, "eviction without push", "a path pops the oldest segment and returns without pushing a new one (the log could become empty)", site=ar.fn_loc())
+    # between the eviction and the push the deque may be EMPTY (max_mem_segments == 1): nothing may look at it there
+    window = reachable_after(ar, [pop_bb], avoid_blocks=(push_bb,))
+    peeks = [(bb, t) for bb, t in ar.calls() if bb in window and not ar.is_cleanup(bb) and bb != push_bb and
+             re.search(r"CommitLog::<T>::(active_segment|active_segment_mut|last|next_offset)$|VecDeque::<T, A>::(back|back_mut|front|front_mut|get|get_mut)$|Index<usize>>::index$|IndexMut<usize>>::index_mut$", callee_path(t))]
+    if peeks:
+        ctx.violation(rule, ar.id, "segments read while possibly empty",
+                      "apply_retention reads the segment queue (%s) after evicting the oldest segment and before pushing the new one: with max_mem_segments == 1 the queue is empty there and the unwrap in active_segment() panics on the append that fills the segment" % callee_path(peeks[0][1]).rsplit("::", 1)[-1],
+                      site=ar.loc(peeks[0][1].get("sp")))
+    else:
+        ctx.ok(rule, ar.id, "nothing reads the segment queue between the eviction and the push of the new segment")
     # the new segment continues at the old active segment's next_offset (contiguity)
     wo = [(bb, t) for bb, t in ar.calls() if callee_path(t).endswith("Segment::<T>::with_offset")]
     if wo:
